@@ -1,0 +1,65 @@
+//go:build verif
+
+package api
+
+// Contracts for the govc verifier (see /verif/DESIGN.md). Comment-only: declares nothing.
+
+// ---- the metadata store as ghost protocol state (C12, C11, C05) ---------------------------------
+// metaPuts / lastMetaPut: records written through MetaStore.Put (task infos and checkpoints alike)
+// txnDeletes / directDeletes: deletes buffered in a transaction object vs. sent immediately
+// txnBegins, commitNilCalls, commitErrCalls: transactions begun, commit(nil) and commit(err) calls
+// Assumed for both backends: the methods change nothing the callers can see except these ghosts.
+//@ ghost var metaPuts int
+//@ ghost var lastMetaPut ref
+//@ ghost var lastMetaPutTxn any
+//@ ghost var txnDeletes int
+//@ ghost var directDeletes int
+//@ ghost var lastMetaDelete ref
+//@ ghost var txnBegins int
+//@ ghost var commitNilCalls int
+//@ ghost var commitErrCalls int
+
+//@ trusted func (MetaStore).Put
+//@   params recv ctx metaObj txn
+//@   ensures metaPuts == old(metaPuts) + 1 && lastMetaPut == metaObj && lastMetaPutTxn == txn
+//@   modifies metaPuts, lastMetaPut, lastMetaPutTxn
+
+// Get returns decoded records (non-nil pointers to fresh objects)
+//@ trusted func (MetaStore).Get
+//@   params recv ctx metaObj txn
+//@   ensures forall i int :: 0 <= i && i < len(result0) ==> result0[i] != nil && freshRef(result0[i])
+//@   modifies nothing
+
+// the checkpoint-record instance: decoded records belong to the queried task and have their own three maps
+//@ trusted func (github.com/zilliztech/milvus-cdc/server/api.MetaStore[*github.com/zilliztech/milvus-cdc/server/model/meta.TaskCollectionPosition]).Get
+//@   params recv ctx metaObj txn
+//@   ensures forall i int :: 0 <= i && i < len(result0) ==> result0[i] != nil && freshRef(result0[i]) && (metaObj.TaskID != "" ==> result0[i].TaskID == metaObj.TaskID)
+//@   ensures forall i int :: 0 <= i && i < len(result0) ==> (result0[i].Positions == nil || (result0[i].Positions != result0[i].OpPositions && result0[i].Positions != result0[i].TargetPositions)) && (result0[i].OpPositions == nil || result0[i].OpPositions != result0[i].TargetPositions)
+//@   modifies nothing
+
+//@ trusted func (MetaStore).Delete
+//@   params recv ctx metaObj txn
+//@   ensures txn == nil ==> directDeletes == old(directDeletes) + 1 && txnDeletes == old(txnDeletes)
+//@   ensures txn != nil ==> txnDeletes == old(txnDeletes) + 1 && directDeletes == old(directDeletes)
+//@   ensures lastMetaDelete == metaObj
+//@   modifies txnDeletes, directDeletes, lastMetaDelete
+
+//@ trusted func (MetaStoreFactory).GetTaskInfoMetaStore
+//@   params recv ctx
+//@   ensures result != nil
+//@   modifies nothing
+//@ trusted func (MetaStoreFactory).GetTaskCollectionPositionMetaStore
+//@   params recv ctx
+//@   ensures result != nil
+//@   modifies nothing
+
+// Txn returns the transaction object and the commit function: commit(nil) commits, commit(err) discards
+//@ trusted func (MetaStoreFactory).Txn
+//@   params recv ctx
+//@   funcparam result1(e)
+//@   funcparam result1 ensures e == nil ==> commitNilCalls == old(commitNilCalls) + 1 && commitErrCalls == old(commitErrCalls)
+//@   funcparam result1 ensures e != nil ==> commitErrCalls == old(commitErrCalls) + 1 && commitNilCalls == old(commitNilCalls)
+//@   funcparam result1 modifies commitNilCalls, commitErrCalls
+//@   ensures err == nil ==> result0 != nil && result1 != nil && txnBegins == old(txnBegins) + 1
+//@   ensures err != nil ==> txnBegins == old(txnBegins)
+//@   modifies txnBegins
